@@ -94,6 +94,19 @@ static std::string tohex(const std::string &s)
   return h;
 }
 
+
+// Time limits of the in-process commands are in CPU time of this process (ITIMER_PROF -> SIGPROF), not wall time:
+// on a loaded machine a harness that waits for a core is not a hang.
+#include <sys/time.h>
+#include <signal.h>
+static void nv_cpu_alarm(int seconds)
+{
+  struct itimerval tv;
+  memset(&tv, 0, sizeof(tv));
+  tv.it_value.tv_sec = seconds;
+  setitimer(ITIMER_PROF, &tv, NULL);
+}
+
 typedef std::string (*handler_t)(const std::vector<std::string> &args);
 static std::map<std::string, handler_t> handlers;
 
